@@ -284,15 +284,22 @@ class YncaCommandHandler(socketserver.StreamRequestHandler):
             return
 
         # Assume ZONEBVOL is independant of VOL
-        if (function == "VOL" or function == "ZONEBVOL") and value.startswith("Up") or value.startswith("Down"):
+        if (function == "VOL" or function == "ZONEBVOL") and (
+            value.startswith("Up") or value.startswith("Down")
+        ):
             # Need to handle Up/Down as it would otherwise overwrite the VOL value wtih text Up/Down
             up = value.startswith("Up")
 
             parts = value.split(" ")
-            amount = 0.5 if len(parts) == 1 else (int(parts[1]))
+            try:
+                amount = 0.5 if len(parts) == 1 else (int(parts[1]))
 
-            value = float(self.store.get_data(subunit, function))
-            value = str(value + (amount * (1 if up else -1)))
+                value = float(self.store.get_data(subunit, function))
+                value = str(value + (amount * (1 if up else -1)))
+            except ValueError:
+                # Not a valid step or no (numeric) volume known for this subunit
+                self._send_ynca_error(UNDEFINED)
+                return
 
         # Store new value, will handle errors for unsupported functions
         result = self.store.put_data(subunit, function, value)
